@@ -8,9 +8,104 @@ HERE = os.path.dirname(os.path.dirname(os.path.abspath(__file__)))
 CHECKS = {
  "C01": ("model_checking",
    "bounded exhaustive enumeration of recorder histories (deviation-bounded: absences, rollbacks, items) x versions x port configs x fills, each executed as write(read(x)) on the real code",
-   "Every well-formed replay the reference recorder can emit within the stated bounds (all 25 layout classes, all 81 port/ICs configurations in the thorough tier, <=3-4 frames with <=2-3 deviations, 5 fill patterns, gecko/no gecko, 0/1/2 Game Ends, metadata/none/empty) is read and written back by the real code and compared byte for byte. Exhaustive inside the bound, no sampling.",
-   "Trusted: the hand-transcribed spec tables (self-checked by double entry at start-up and bound to the repository's fixture replays by C03's fixture walk); 32-bit field values are covered by patterns, not all 2^32 values.",
+   "Every well-formed replay the reference recorder can emit within the stated bounds (all 25 layout classes, all 81 port/ICs configurations in the thorough tier, <=3-4 frames with <=2-3 deviations, 5 fill patterns, gecko/no gecko, 0/1/2 Game Ends, metadata/none/empty; all 784 versions with a fixed small history) is read and written back by the real code and compared byte for byte. Exhaustive inside the bound, no sampling.",
+   "Trusted: the hand-transcribed spec tables (self-checked by double entry at start-up and bound to the repository's fixture replays); 32-bit field values are covered by patterns, not all 2^32 values.",
    "5 C01"),
+ "C02": ("model_checking",
+   "bounded exhaustive enumeration of replays x {none,LZ4,ZSTD} x {hash off,on}, each executed as slp->slpp->slp on the real code",
+   "All corner shapes (zero frames, no/empty metadata, no end, double end, gecko, nothing) per layout class x 3 compressions x 2 hash settings, all 784 versions, and the deviation-bounded history space: bytes identical, hash/quirks carried, re-read game equal field by field.",
+   "arrow2 IPC, lz4, zstd, tar, serde_json are trusted base (exercised, not verified in isolation).",
+   "5 C02"),
+ "C03": ("model_checking",
+   "complete enumeration over all 784 versions and exhaustive 8/16-bit value sweeps per field against an independent spec table",
+   "Every version 0.1..3.16 and every frame-event field: decoded column == big-endian bytes at the SPEC offset, present iff version >= since; all 256 / 65,536 values of 8/16-bit fields, walking bits + IEEE specials for 32-bit fields; checked on Game.frames and on the Arrow array addressed by field name; plus the fixture replays.",
+   "32-bit fields not enumerated over 2^32 values; spec tables hand-transcribed and self-checked.",
+   "5 C03"),
+ "C04": ("model_checking",
+   "explicit-state exploration of the frame open/close protocol: every transition is one real parse_event call, state inspected after every event against a reference walker",
+   "All event histories of the recorder grammar within the bound (3 framing regimes, id steps {+1,0,-1,+2}, every presence pattern of every character for <=4 characters, 0..2 items, 6-81 port configs): one row per frame occurrence, presence bits, values in the right row/port, item grouping, all column lengths; one-shot and incrementally after every event.",
+   "Presence is defined by the reference walker (Pre+Post between a frame's opening and closing events).",
+   "5 C04"),
+ "C05": ("model_checking",
+   "exhaustive single-byte sweep (every offset x 256 values) of every Game Start length class and full product for Game End, against an independent offset table",
+   "Every mapped and unmapped byte of each of the 10 Game Start layouts through all 256 values, all 5^4 port-type patterns x teams, NUL at every position of every string field; Game End: every byte x 256 and the full method x LRAS x 6^4 placement product. Fields, optional-field presence, player listing, raw bytes and JSON rendering compared with an independent decode.",
+   "encoding_rs Shift-JIS table trusted; unterminated UID/match-id strings are an open zone.",
+   "5 C05"),
+ "C06": ("fault_enumeration",
+   "exhaustive enumeration of the <=1 (thorough: <=2) deviation neighbourhood of well-formed replays (structure-aware and byte-level), all short suffixes after every parser state, every read call x error kind; on the real one-shot and incremental readers under catch_unwind + watchdog + progress-bounded reader",
+   "No panic, abort, hang or read loop without progress for any input in the explored neighbourhood (about 1.2 M inputs quick, 21 M thorough) under all 4 option combinations and through the incremental API; injected non-Interrupted read errors surface as Err; metadata nested up to 10^6 deep in a subprocess.",
+   "'All byte strings' cannot be enumerated: the claim is for the stated neighbourhood.",
+   "5 C06"),
+ "C07": ("fault_enumeration",
+   "every crash point: every proper prefix of well-formed .slp files and of written .slpp archives, read by the real code under a virtual clock and watchdog",
+   "Every byte offset of every generated finished replay (x skip_frames x hash) must give Err; every prefix of the produced archives (3 compressions, thorough) gives Err or exactly the full game; sleeping is intercepted (interposed nanosleep) so a wait-for-data loop is a verdict, not a timeout.",
+   "Truncation is modelled as EOF at the cut.",
+   "5 C07"),
+ "C08": ("model_checking",
+   "exhaustive insertion of unknown events (all singles, all pairs, a triple) at every event boundary; newer-version payload extension per event kind; differential oracle against the same replay without them",
+   "For replays of every framing regime: every placement of 1-3 table-declared unknown events of 5 code/size shapes yields the identical game; versions > 3.16 with +1/+3/+17 trailing bytes on each known event parse to the same known fields.",
+   "Known finding: doubled-Game-End quirk lost when an unknown event follows the first Game End.",
+   "5 C08"),
+ "C09": ("model_checking",
+   "complete enumeration of all 2^24 version triples for both writers",
+   "Err iff (major,minor,patch) > (3,16,0) for slippi::write (complete) and peppi::write (complete on the refusing side; accepted side every (major,minor) x patch {0,1,255} quick, all 200,705 thorough).",
+   "Uses a zero-frame game stamped with the triple; the guard is invoked first in both writers.",
+   "5 C09"),
+ "C10": ("model_checking",
+   "bounded exhaustive enumeration of finished replays x options, differential oracle skip-read vs full read",
+   "All 784 versions and the layout-class edges x gecko shapes x {1,2} ends x {metadata,none,empty} x histories x hash: skip_frames returns equal start/end/metadata, zero frames with correctly shaped empty columns, result writes/re-reads/converts; same for peppi::read's skip option.",
+   "Gecko codes / quirks of the skip result are not compared (not promised).",
+   "5 C10"),
+ "C11": ("model_checking",
+   "exhaustive enumeration of read schedules (every two-piece split, all chunk sizes, every <=1-2 short-read deviation over all read calls) of an environment-owned reader",
+   "hash == xxh3 (one-shot reference) of the bytes through the closing brace for every schedule and both skip settings; trailing bytes excluded; None when not requested; carried through .slpp.",
+   "xxhash-rust one-shot xxh3_64 is the reference.",
+   "5 C11"),
+ "C12": ("model_checking",
+   "explicit-state exploration over events x read schedules: every transition is one real parse_event call on an environment-owned reader",
+   "After every call bytes_read() == raw bytes consumed == bytes handed out, frame count monotone, completed rows equal the model; final ParseState equals the one-shot game through the Game trait; all histories x 3 schedules and 6 bases x every split/chunk/short-read deviation.",
+   "Rows count as completed when the reference walker has seen their closing event.",
+   "5 C12"),
+ "C13": ("model_checking",
+   "bounded exhaustive enumeration (rides on the C04 exploration) comparing transpose_one / Game::frame with the columns leaf by leaf",
+   "Every game of the history exploration, all 784 versions, every row, every leaf, finished and in-progress (completed rows after every event): row view == column value, absent iff column absent, items == slice between offsets.",
+   "Fill patterns make same-typed sibling fields distinct.",
+   "5 C13"),
+ "C14": ("model_checking",
+   "complete enumeration over all 784 versions x 80 port configurations; schema compared with two independently built expectations; leaves addressed by name",
+   "Arrow schema (names, nesting, order, primitive types) equals the SPEC transcription and gen/resources/frames.json; one row per frame; struct validity == presence; every exported leaf == in-memory column; import serialises to the identical .slp.",
+   "Nullability flags not compared; `end` omitted for 3.0-3.6 (no fields); zero-player configuration excluded.",
+   "5 C14"),
+ "C15": ("model_checking",
+   "complete enumeration of all id sequences up to length 8 (9) over 4 (6) ids, contiguous and gapped alphabets, both modes, against the naive definition",
+   "Every sequence: mask length, marked(i) iff earlier/later equal id, exactly one unmarked row per id.",
+   "Sequences longer than the bound not enumerated.",
+   "5 C15"),
+ "C16": ("model_checking",
+   "exhaustive enumeration of all metadata trees of a bounded grammar including every key order, with independent UBJSON/tar/JSON readers",
+   "Tree with key order preserved on read, bytes reproduced on write, metadata.json in .slpp token-identical in order and values, peppi::read gives the same tree; absent metadata => None.",
+   "Depth bounded at 128 by the library; grammar bounds stated in the evidence.",
+   "5 C16"),
+ "C17": ("model_checking",
+   "exhaustive enumeration of tolerated irregularities: all order-preserving permutations of a frame's events x junk after Game End x unknown events x missing end/metadata",
+   "For every accepted input: declared raw length == measured raw element, re-read equal, write is a fixed point.",
+   "Rejected inputs are outside the quantifier (count reported; run aborts as vacuous if >10%).",
+   "5 C17"),
+ "C18": ("model_checking",
+   "bounded exhaustive enumeration of archives x compressions, every placement of unknown entries, and all 2^24 format-version triples (thorough) with an independent tar reader/writer",
+   "Signature, entry order, JSON entries equal to reconstructed renderings, raw entries, determinism; unknown entries ignored at every position (singles, pairs); read Err iff format version < 2.0.0.",
+   "frames.arrow presence for zero-frame games is an open zone.",
+   "5 C18"),
+ "C19": ("model_checking",
+   "complete enumeration of all 1- and 2-byte sequences at field start and straddling the field end, NUL at every position with garbage, and all 1,112,064 Unicode scalars for normalisation",
+   "Field == strict Shift-JIS decode of the bytes before the first NUL, invalid => Err, bytes after NUL irrelevant; normalisation mapping exact and idempotent for every scalar value.",
+   "encoding_rs table is the reference for valid sequences.",
+   "5 C19"),
+ "C20": ("model_checking",
+   "complete enumeration: 2^16 x 2^16 gate evaluations, 2^24 display/parse round trips for both Version types, all strings of length <=6 (7) over an 11-symbol alphabet",
+   "gte == lexicographic >=, lt == !gte; parse(display(v)) == v; non-version strings rejected, canonical ones accepted.",
+   "'+' prefixes / leading zeros are an open zone.",
+   "5 C20"),
 }
 
 PENDING_REASON = "check not built yet in this session (under construction; see DESIGN.md section 5)"
